@@ -544,7 +544,6 @@ func contract_MessageInfo_unmarshalField(mi *MessageInfo, b []byte, p pointer, f
 // @ callsite f.funcs.unmarshal: false
 // @ callsite mi.unmarshalField: arg[*coderFieldInfo](2) == f && arg[pointer](1) == fp && f != nil
 func contract_MessageInfo_lazyUnmarshal(mi *MessageInfo, p pointer, num protoreflect.FieldNumber) {
-	requires(mi != nil)
 	modifiesAll()
 	return
 }
